@@ -309,7 +309,7 @@ pub fn check_colors() -> R {
             all.push((0x2_0000 + n, Color::Ansi256(Ansi256Color(n as u8))));
         }
         for n in 0..64u32 {
-            let (r, g, b) = ((n & 3) as u8 * 5, ((n >> 2) & 3) as u8 * 100, ((n >> 4) & 3) as u8);
+            let (r, g, b) = ((n & 3) as u8 * 5, ((n >> 2) & 3) as u8 * 80, ((n >> 4) & 3) as u8);
             all.push((0x3_000000 + ((r as u32) << 16) + ((g as u32) << 8) + b as u32, Color::Rgb(anstyle::RgbColor(r, g, b))));
         }
         let h = |c: &Color| {
